@@ -137,3 +137,12 @@ Print Assumptions C01_claim_stagger_by_address.
 
 Example C01_token_lost_constants : token_lost_base = 6 /\ token_lost_per_addr = 2.
 Proof. split; reflexivity. Qed.
+
+(* ------------------------------------------------------------------------------------------ *)
+(* All bit-time statements above (33 bit, 11 bit, slot time, time-outs) are in the code's own conversion
+   `bits_to_time`, which divides by `Baudrate::to_rate`.  That table (regenerated from src/lib.rs on every
+   run) gives every baud rate the bit rate its name stands for. *)
+From PB Require Import StdRates StdRatesProofs.
+Theorem C01_standard_baud_rates : forall b : baudrate, baud_to_rate b = std_rate b.
+Proof. exact standard_baud_rates. Qed.
+Print Assumptions C01_standard_baud_rates.
